@@ -1648,9 +1648,11 @@ func chRandComp(rng *rand.Rand, depth int) *chComp {
 			for i := 0; i < k; i++ {
 				c.With = append(c.With, kid())
 			}
-		case k < 8:
+		case k == 6:
 			c.Translate = ints([]byte("kr"))
 			c.With = []*chComp{kid(), kid()}
+		case k == 7:
+			c.Translate = ints([]byte("ke")) // in the table, translated to the empty string
 		case k == 8:
 			c.Translate = ints([]byte("k2"))
 			c.With = []*chComp{chTxt(fmt.Sprint(rng.Intn(300) - 150)), chTxt(fmt.Sprint(rng.Intn(100000) - 50000))}
